@@ -14,7 +14,9 @@ pub fn domains(quick: bool) -> Vec<Dom> {
     if quick {
         vec![Dom::Range(-2, 2), Dom::Range(0, 2), Dom::Sparse(vec![-1, 1, 3])]
     } else {
-        vec![Dom::Range(-2, 2), Dom::Range(0, 2), Dom::Range(1, 3), Dom::Sparse(vec![-1, 1, 3]), Dom::Sparse(vec![0, 2])]
+        // the last two are value lists as a caller may write them: a repeated value (in ascending
+        // order, and out of order) still denotes a set
+        vec![Dom::Range(-2, 2), Dom::Range(0, 2), Dom::Range(1, 3), Dom::Sparse(vec![-1, 1, 3]), Dom::Sparse(vec![0, 2]), Dom::Sparse(vec![-1, -1, 0, 2]), Dom::Sparse(vec![2, 0, 2])]
     }
 }
 
